@@ -4,7 +4,7 @@
 # on scratch copies of /repo; prints the ones that are not caught.
 cd "$(dirname "$0")/.."
 mkdir -p /tmp/reseed
-ls seeded | while read d; do echo "$d ${d%%-*}"; done | xargs -P ${JOBS:-6} -L 1 sh -c 'SEED_SKIP_TESTS=1 MUT_TIER=$(python3 -c "import json,sys;print(json.load(open(sys.argv[1])).get(\"tier\",\"quick\"))" /verif/seeded/$0/meta.json) python3 tools/seedcheck.py /verif/seeded/$0 $1 > /tmp/reseed/$0.json 2>/tmp/reseed/$0.err'
+ls seeded | while read d; do grep -q '"superseded": true' seeded/$d/meta.json || echo "$d ${d%%-*}"; done | xargs -P ${JOBS:-6} -L 1 sh -c 'SEED_SKIP_TESTS=1 MUT_TIER=$(python3 -c "import json,sys;print(json.load(open(sys.argv[1])).get(\"tier\",\"quick\"))" /verif/seeded/$0/meta.json) python3 tools/seedcheck.py /verif/seeded/$0 $1 > /tmp/reseed/$0.json 2>/tmp/reseed/$0.err'
 python3 - <<'PY'
 import json,glob
 bad=[]
